@@ -134,7 +134,7 @@ def schedules(chk: Check):
         if not ss:
             raise MachineryError(f"TLC produced no schedule for R={r} uhf={uhf} eager={eager}")
         return c, ss, exhaustive
-    with ThreadPoolExecutor(6) as ex:
+    with ThreadPoolExecutor(8) as ex:
         res = list(ex.map(one, configs))
     rng = pyrandom.Random(chk.seed)
     table = {}
@@ -177,6 +177,7 @@ class Lib:
         self.pat_up = (np.arange(NORB * NUP).reshape(NORB, NUP) / 64.0).astype(np.complex128)
         self.pat_dn = (np.arange(NORB * NDN).reshape(NORB, NDN) / 32.0).astype(np.complex128)
         self._tags = {}
+        self._jtags = {}
         self._props = {}
 
     def tags(self, n):
@@ -216,23 +217,24 @@ class Lib:
         """run implementation `base` on walkers lo..hi-1 (global 0-based indices) of the tagged population"""
         jnp, sr = self.jnp, self.sr
         n_tot = self._n_tot
-        up, dn = self.tags(n_tot)
-        up, dn = up[lo:hi], dn[lo:hi]
-        wl = np.asarray(wts[lo:hi], dtype=np.float64)
+        if (n_tot, lo, hi) not in self._jtags:        # immutable jax arrays: safe to share between calls and threads
+            u, d = self.tags(n_tot)
+            self._jtags[(n_tot, lo, hi)] = (jnp.array(u[lo:hi]), jnp.array(d[lo:hi]))
+        up, dn = self._jtags[(n_tot, lo, hi)]
+        wl = jnp.array(np.asarray(wts[lo:hi], dtype=np.float64))
         if base == "np":
-            return sr.stochastic_reconfiguration_np(jnp.array(up), jnp.array(wl), zeta)
+            return sr.stochastic_reconfiguration_np(up, wl, zeta)
         if base == "jit":
-            return sr.stochastic_reconfiguration(jnp.array(up), jnp.array(wl), jnp.float64(zeta))
+            return sr.stochastic_reconfiguration(up, wl, jnp.float64(zeta))
         if base == "jit_uhf":
-            return sr.stochastic_reconfiguration_uhf([jnp.array(up), jnp.array(dn)], jnp.array(wl), jnp.float64(zeta))
+            return sr.stochastic_reconfiguration_uhf([up, dn], wl, jnp.float64(zeta))
         if base == "mpi":
-            return sr.stochastic_reconfiguration_mpi(jnp.array(up), jnp.array(wl), zeta, comm)
+            return sr.stochastic_reconfiguration_mpi(up, wl, zeta, comm)
         if base == "mpi_uhf":
-            return sr.stochastic_reconfiguration_mpi_uhf([jnp.array(up), jnp.array(dn)], jnp.array(wl), zeta, comm)
+            return sr.stochastic_reconfiguration_mpi_uhf([up, dn], wl, zeta, comm)      # (mutates its list argument)
         kind, mode = base[5], base[7:]
         p = self.prop(kind, hi - lo)
-        pd = {"key": key, "weights": jnp.array(wl),
-              "walkers": jnp.array(up) if kind == "r" else [jnp.array(up), jnp.array(dn)]}
+        pd = {"key": key, "weights": wl, "walkers": up if kind == "r" else [up, dn]}
         pd = p.stochastic_reconfiguration_local(pd) if mode == "local" else p.stochastic_reconfiguration_global(pd, comm)
         return pd["walkers"], pd["weights"]
 
@@ -374,6 +376,14 @@ def scale_of(name):
     return 1.0
 
 
+def key_pool(lib, seed, size=512):
+    """seeded PRNG keys and the offset each makes the propagators draw"""
+    jax = lib.jax
+    pool = jax.random.split(jax.random.PRNGKey(seed + 7), size)
+    zetas = np.asarray(jax.vmap(lambda k: jax.random.uniform(jax.random.split(k)[1]))(pool))
+    return [pool[i] for i in range(size)], zetas
+
+
 # ------------------------------------------------------------------------------------------------ spec -> code
 def grid_states(chk: Check, rng):
     """TLC enumerates the states to replay: (weight vector, offset cells)"""
@@ -409,7 +419,12 @@ def grid_states(chk: Check, rng):
         states.append(rec)
     if len(states) != res.states // 2 + len(mixed):
         raise MachineryError(f"CombGrid wrote {len(states)} states, expected {res.states // 2 + len(mixed)}")
-    return states, {"NMax": nmax, "WMax": wmax, "enumerated_vectors": res.states // 2, "proposed_vectors": len(mixed)}
+    # quick tier: of the enumerated vectors with N = NMax keep every non-negative one and a seeded quarter of the
+    # others (the code sees the signs only through |w|; CombCheck proves SignSymmetric for every sign pattern)
+    kept = [st for st in states if st["kind"] != "fine" or chk.tier != "quick" or len(st["w"]) < nmax
+            or min(st["w"]) >= 0 or rng.random() < 0.25]
+    return kept, {"NMax": nmax, "WMax": wmax, "enumerated_vectors": res.states // 2, "proposed_vectors": len(mixed),
+                  "replayed_vectors": len(kept)}
 
 
 def replay_states(chk: Check, lib: Lib, picker, states, rng):
@@ -417,10 +432,10 @@ def replay_states(chk: Check, lib: Lib, picker, states, rng):
     runner = Runner(chk, lib, picker)
     records, meta = [], {}
     quick = chk.tier == "quick"
-    p_thread = {1: 0.04, 2: 0.12, 3: 0.25, 4: 0.12} if quick else {1: 0.1, 2: 0.4, 3: 0.6, 4: 0.4}
-    keypool = lib.jax.random.split(lib.jax.random.PRNGKey(chk.seed + 7), 512)
-    pool_zeta = np.asarray(lib.jax.vmap(lambda k: lib.jax.random.uniform(lib.jax.random.split(k)[1]))(keypool))
+    p_thread = {1: 0.02, 2: 0.05, 3: 0.12, 4: 0.06} if quick else {1: 0.1, 2: 0.4, 3: 0.6, 4: 0.4}
+    keypool, pool_zeta = key_pool(lib, chk.seed)
     pool_frac = [Fraction(float(z)) for z in pool_zeta]
+    verified = set()
     nstate = 0
     for st in states:
         w = st["w"]
@@ -480,8 +495,10 @@ def replay_states(chk: Check, lib: Lib, picker, states, rng):
                 runs = []
                 for k in ks:
                     z = float(pool_zeta[k])
-                    if lib.drawn_zeta(keypool[k]) != z:
-                        raise MachineryError("could not reproduce the propagator's offset from its key")
+                    if k not in verified:
+                        verified.add(k)
+                        if lib.drawn_zeta(keypool[k]) != z:
+                            raise MachineryError("could not reproduce the propagator's offset from its key")
                     r = comm_ranks(name)
                     keys = [keypool[k]] + [keypool[(k + 17 * q) % len(keypool)] for q in range(1, r)]
                     run = runner.run_impl(name, n, wts, z, None, s, 1.0, key=keypool[k], keys=keys)
@@ -579,15 +596,32 @@ def run(chk: Check):
         "a run on R ranks is R threads sharing one thread communicator whose collectives follow MPI's matching "
         "rules; arrival orders are TLC behaviours of CombMPI.tla (exhaustive for R<=2, sampled for R=3,4)"]
     rng = pyrandom.Random(chk.seed)
-    design(chk)
+    # the design-level TLC runs do not depend on the library: run them beside the replay
+    bg = ThreadPoolExecutor(1)
+    design_done = bg.submit(design, chk)
+    try:
+        _run_binding(chk, rng)
+    finally:
+        design_done.result()          # re-raises a MachineryError of the design-level runs
+        bg.shutdown()
+
+
+def _run_binding(chk: Check, rng):
+    import time
+    t = [time.time()]
     table = schedules(chk)
+    t.append(time.time())
     lib = Lib()
     differential_stub(chk, lib)
     states, ginfo = grid_states(chk, rng)
     chk.note("replay_grid", ginfo)
+    t.append(time.time())
     picker = SchedulePicker(table)
     records, meta = replay_states(chk, lib, picker, states, rng)
+    t.append(time.time())
     nfail, mism = judge(chk, records, meta)
+    t.append(time.time())
+    chk.note("phase_wall_s", dict(zip(["schedules", "grid", "replay", "judge"], [round(b - a, 1) for a, b in zip(t, t[1:])])))
     chk.note("records_judged", len(records))
     chk.note("failing_clauses", nfail)
     chk.note("implementations_differing_from_reference_model_somewhere", mism)
@@ -617,7 +651,7 @@ def replay(chk: Check, case):
     runner = Runner(chk, lib, picker)
     s = fixed_bits(n, W)
     if c["kind"] == "prop":
-        keypool = lib.jax.random.split(lib.jax.random.PRNGKey(case.get("seed", 0) + 7), 512)
+        keypool, _ = key_pool(lib, case.get("seed", 0))
         ks = c["keys"]
         cells, zetas = c["cells"], [lib.drawn_zeta(keypool[k]) for k in ks]
     else:
